@@ -4,6 +4,26 @@ import json, os
 HERE = os.path.dirname(os.path.dirname(os.path.abspath(__file__)))
 
 CHECKS = {
+ 'C08': dict(
+   category='model_checking',
+   text="Geometry.tla is an exact-rational TLA+ machine that builds a mesh (rectilinear / simplex / product, refined or not), a polynomial geometry map and a polynomial field and lowers the operators the way nutils does (root derivative, inverse / Gram pseudo inverse, normal as the orthonormalised exterior vector of the pushed edge, Gram determinant, exact quadrature); TLC checks the defining identities as invariants (gradient of p(X) is p'(X), surface gradient is the tangential projection, normals unit / orthogonal / outward / opposite on interfaces, divergence theorem per element and per mesh, refinement preserves integrals; spec mutants must violate). Every evaluation state of the model is replayed on real nutils meshes and function objects: grad, div, curl, laplace, symgrad, surfgrad, J, normal, exterior normal, per-space gradients and the integrals of the divergence theorem are compared point by point with the state the model predicts (S->C); the edge transforms of every reference element and the transform chains of all boundary / interface elements of the real topologies are exported and TLC decides that the tangent columns span the facet and that ext points out of the element (T).",
+   note="Polynomial geometries and fields of low degree with small integer coefficients on line/square/triangle (cube/tet thorough); integral invariance for curved geometries is decided only through exact quadrature of the polynomial integrands, curvature and general manifolds in 3-D are outside.",
+   technique="TLA+ exact-rational geometry machine checked by TLC; model states replayed on real meshes/functions; exported edge/transform tables validated by TLC"),
+ 'C11': dict(
+   category='model_checking',
+   text="TransformChain.tla/ChainRewrite.tla model transform items with exact dyadic affine maps, swapup/swapdown method by method and the loops of canonical/uppermost/promote as a machine with one action per loop iteration (invariants MapPreserved, WellFormed, Terminates, CanonicalDone, OperatorAgrees); TransformSeq.tla/SeqNesting.tla give the denotation and the lookup algorithm (index_with_tail) of Structured/Index/Plain/Masked/Reordered/Derived/UniformDerived/Chained sequences and of the structured axes algebra (invariants LookupCorrect, FIndex, PrefixFree, CrossConsistent, InterfaceConsistent). Bindings: every child/edge item and every swap result of the live code is decided by TLC (T, TransformTables.tla); ChainRewrite behaviours are replayed on transform.canonical/uppermost/promote and SeqNesting states are rebuilt from the real classes and compared element by element and lookup by lookup incl. f_index/f_coords/opposite geometry (S->C); nestings produced by real topology operations with their recorded lookups, interface chains and locate() results are validated by TLC (C->S, TraceTopo.tla). Spec mutants (wrong swap entry, three wrong Lookup variants) violate.",
+   note="Simplices and tensor products up to dimension 3, chains up to length 4, nestings up to depth 3; locate() on affine geometries only (Newton accuracy for non-affine maps is outside).",
+   technique="TLA+ transform-chain rewriting machine + sequence-nesting model checked by TLC; live tables validated by TLC; behaviours replayed on the real classes; recorded real nestings/lookups validated by TLC"),
+ 'C16': dict(
+   category='model_checking',
+   text="Parallel.tla models fork, the shared range with its lock (claim = read/test/write as separate steps), per-array locks, shared vs copy-on-write private memory, worker exceptions, SIGKILL and the parent's wait/kill logic; TLC checks AtMostOnce, ExactlyOnce, MutexRange, MutexArrays, NoLostUpdate, NoPartialResult, RaiseOnlyOnFault, NoOrphans and termination exhaustively (spec mutants: unlocked claim, ignored exit code, no kill of children must violate). Bindings: the loop bodies of scripts that evaluable.compile really generates under maxprocs>1 are exported as configurations of the model and TLC decides for each that every schedule yields the serial result (T); TLC-generated schedules with faults are replayed step by step into the real parallel.ctxrange/fork/range/_wait/shzeros with the predicted shared state compared after every step (S->C); real multi-process integrate/eval/locate runs recorded through the env-guarded hook in parallel.py and a logging shim around the locks of the generated script are validated by TraceParallel.tla, and their results compared with the maxprocs=1 result (C->S).",
+   note="3 processes x 3 iterations x 2 arrays exhaustive; a worker killed inside a critical section deadlocks its siblings (POSIX semaphore) - the model shows it, the property only forbids returning a partial result, so it is observed and not judged.",
+   technique="TLA+ fork/range/lock protocol model checked by TLC; generated-script configurations decided by TLC; schedule replay into the real primitives; trace validation of hooked real multi-process runs"),
+ 'C19': dict(
+   category='model_checking',
+   text="ExprLang.tla states the documented reading of the expression language (syntax trees, rendering, the documented rules as a declarative count of index occurrences, the meaning as explicit index-notation sums over exact rationals); ExprParse.tla models the algorithm of expression_v2._Parser/_FunctionArrayOps (one operator per parse_* method) with a derivation machine (one action per production, rule-breaking constructors, token-level corruptions). TLC checks over every derivable tree that the algorithm accepts exactly the trees that follow the documented rules and that its array equals the index-notation reading (VerdictAgree, FreeAgree, MeaningAgree). Every complete state is emitted with the predicted verdict and array and fed to the real `expr @ ns`, `ns.x_ij = expr` (v2) and `ns.eval_ij(expr)` (v1): exception class, shape, axis order and values (both sides of an interface for jump/mean) must agree (S->C).",
+   note="Depth <= 3 exhaustive per production, simulation beyond; gradients/normals only on tiny meshes; error message texts are not compared; v1-only features (substitution, linked lengths) are covered only where they share the v2 grammar.",
+   technique="TLA+ grammar/meaning model + parser-algorithm model checked by TLC; derivations replayed on the real expression_v1/v2 namespaces"),
  'C09': dict(
    category='model_checking',
    text="SampleAlg.tla models every sample class of sample.py (_DefaultIndex, _CustomIndex, _Empty, _Add, _Mul, _TakeElements, _Zip) with a code layer (nelems/npoints/getindex/evaluable indices computed as the class does) and a denotation (elements, points, weight factors); TLC checks IndexPartition, EvalOrder, EvIndexAgrees, Quadrature, OpLaw over all nestings of the public operations; every nesting is rebuilt from real base samples and compared on nelems, npoints, getindex, row-by-row eval and integrate = sum(weight x value). GaussOracle.tla gives exact monomial integrals (dyadic affine images of references, closed simplex formula) for all reference elements, child subsets and dyadic half-space trims; TLC checks RefVolume/ChildrenTile/TrimSplits and the live decompositions exported from the code (T); Gauss schemes of all degrees are compared with the oracle (2e-13), plus points-inside and sum of weights.",
@@ -107,7 +127,7 @@ def main():
         json.dump(m, f, indent=1)
     print('MANIFEST.json: {} checks, {} not claimed'.format(len(checks), len(na)))
 
-HOOK_COMMITS = []
+HOOK_COMMITS = ['6e6c6ff']
 
 if __name__ == '__main__':
     main()
